@@ -17,9 +17,10 @@ Check == LET c == Data.cases[tidx]
              shape == ShapeOf(Data.shapes[c.shape])
              cfg == ToSet(c.cfg)
              ref == Outcome(shape, cfg)
-             alg == AlgOutcome(shape, cfg)
+             NoDef(ch) == ch \in {"object_nodefaults", "string_nodefaults", "argv_nodefaults"}
+             alg(j) == AlgOutcomeCh(shape, cfg, NoDef(c.outs[j].ch))
          IN \A j \in 1..Len(c.outs) :
-              /\ (c.outs[j].out = ref) \/ Say(tidx, j, IF ForeignOnlyInDroppedSection(shape, cfg) /\ c.outs[j].out = alg THEN "ref-dev-as-alg:" \o DevKind(shape, cfg) ELSE "ref")
-              /\ (c.outs[j].out = alg) \/ Say(tidx, j, "alg")
+              /\ (c.outs[j].out = ref) \/ Say(tidx, j, IF ref = "err" /\ alg(j) = "ok" /\ c.outs[j].out = "ok" THEN "ref-dev-as-alg:" \o DevKind(shape, cfg) ELSE "ref")
+              /\ (c.outs[j].out = alg(j)) \/ Say(tidx, j, "alg")
 Inv == Check \/ TRUE
 =============================================================================
